@@ -1,5 +1,5 @@
 """C19 — optional per-user files (config, history, currency table) fail soft."""
-import os, sys, io, math, json, shutil, tempfile, subprocess, itertools
+import os, sys, io, math, json, time, shutil, tempfile, subprocess, itertools, unicodedata
 from fractions import Fraction
 from concurrent.futures import ThreadPoolExecutor
 import core
@@ -515,15 +515,6 @@ def _check(ctx, rng, R, C, CU, tmp):
             open(os.path.join(home, ".config", "ka"), "w").write("x")
         specials.append((mk, home))
     drates = default_rates(CU)
-    jobs = []
-    for i, (cs, hs, us) in enumerate(triples):
-        home, c_eff, h_eff, u_eff, hist_path = prepare_home(root, i, cs, hs, us)
-        jobs.append(dict(home=home, cs=c_eff, hs=h_eff, us=u_eff, hist_path=hist_path, name="%s/%s/%s" % (cs.name, hs.name, us.name)))
-    for mk, home in specials:
-        m = St("missing", "missing")
-        jobs.append(dict(home=home, cs=m, hs=St("parentfile", "parentfile"), us=m, hist_path=os.path.join(home, ".config", "ka", "history"),
-                         name=mk, special=True))
-
     def run_job(j):
         home = j["home"]
         j["one"] = run_py(home, ["-m", "ka.cli", "{7 usd to eur, pi}"])
@@ -535,8 +526,38 @@ def _check(ctx, rng, R, C, CU, tmp):
         except Exception as e:  # noqa
             j["hist_after"] = type(e).__name__
         return j
-    with ThreadPoolExecutor(max_workers=12) as ex:
-        jobs = list(ex.map(run_job, jobs))
+
+    # the product is walked in a seeded random order, in chunks, under a time budget (the thorough tier covers the
+    # full product when the machine is not loaded; the evidence says how much was covered)
+    order = list(triples)
+    if not ctx.quick():
+        rng.shuffle(order)
+    budget = 480.0
+    t_start = time.time()
+    jobs, idx = [], 0
+    first = True
+    while idx < len(order):
+        chunk = []
+        for (cs, hs, us) in order[idx:idx + 240]:
+            home, c_eff, h_eff, u_eff, hist_path = prepare_home(root, idx + len(chunk), cs, hs, us)
+            chunk.append(dict(home=home, cs=c_eff, hs=h_eff, us=u_eff, hist_path=hist_path, name="%s/%s/%s" % (cs.name, hs.name, us.name)))
+        idx += len(chunk)
+        if first:
+            first = False
+            for mk, home in specials:
+                m = St("missing", "missing")
+                chunk.append(dict(home=home, cs=m, hs=St("parentfile", "parentfile"), us=m,
+                                  hist_path=os.path.join(home, ".config", "ka", "history"), name=mk, special=True))
+        with ThreadPoolExecutor(max_workers=12) as ex:
+            chunk = list(ex.map(run_job, chunk))
+        for j in chunk:
+            shutil.rmtree(j["home"], ignore_errors=True)
+        jobs += chunk
+        if time.time() - t_start > budget:
+            break
+    ctx.cov["fault_enumeration"] = dict(state_triples=len(order), covered=idx, config_states=len(CS), history_states=len(HS), currency_states=len(US))
+    if idx < len(order):
+        ctx.notes.append("fault enumeration stopped by its time budget after %d of %d state triples (seeded random order)" % (idx, len(order)))
 
     cases_one, cases_int, cases_save = [], [], []
     for j in jobs:
@@ -675,7 +696,8 @@ def _check(ctx, rng, R, C, CU, tmp):
     # ------------------------------------------------------------------ (a3) registration loop, subprocess vs model
     names0 = [k for k, u in R.units.NAME_TO_UNIT.items() if "cash" not in u.quantities]
     syms0 = [k for k, u in R.units.SYMBOL_TO_UNIT.items() if "cash" not in u.quantities]
-    pool_names = ["euro", "usdollar", "dollar", "yen", "pound", "metre", "second", "seconds", "foo", "foos", "bar", "noplura", "", "gram", "x", "eur", "usd", "$", "€", "peso", "pesos"]
+    pool_names = ["euro", "usdollar", "dollar", "yen", "pound", "metre", "second", "seconds", "foo", "foos", "bar", "noplura", "", "gram", "x", "eur", "usd", "$", "€", "peso", "pesos",
+                  "bolívar", "pa'anga", "ni-vanuatu", "mètre", "1st", "_x", "ｆｏｏ", "ﬁat", "日本", "a b", "é", "Å1"]
     pool_syms = ["eur", "usd", "jpy", "gbp", "m", "s", "g", "K", "b", "cup", "min", "xx", "yy", "foo", "foos", "", "$", "dollar", "euro", "x", "peso"]
     regjobs = []
     for i in range(ctx.n(36, 400)):
@@ -718,7 +740,7 @@ def _check(ctx, rng, R, C, CU, tmp):
                 ctx.violation("no-cash-dimension", text, "no currency registered without a base", str(real), "import ka.units")
             continue
         req = "curreg %s|%s|%s" % (",".join("s" + dots(x) for x in names0), ",".join("s" + dots(x) for x in syms0),
-                                   ",".join("s%s/s%s/%d" % (dots(a), dots(b), 1 if c > 0 else 0) for a, b, c in rows))
+                                   ",".join("s%s/s%s/s%s/%d" % (dots(a), dots(b), dots(unicodedata.normalize("NFKD", b)), 1 if c > 0 else 0) for a, b, c in rows))
         cases.append((req, real, text))
 
     def agree_reg(real, model, info):
